@@ -51,15 +51,16 @@ CHECKS = {
         "avl_height_bound (fib(h+2) <= size+1), find_spec (<= height comparisons; found iff stored), postorder_perm_inorder (free destroys each once), inv_new/inv_insert/inv_remove (invariant over every history). Tie: after every call the whole shape "
         "(node id, key, balance, parent), size and comparator-call count are compared with the implementation; the harness checks iterator stability, destroy-once, callback user data, allocator balance.",
    note="Parent-pointer stepping (iter_next/prev) is compared through full forward/backward walks, not modelled as pointer code.", ref="§5 C06"),
- "C01": dict(cat="translation_validation", tech="Lean 4 executable B-tree model (pages with block ids, every restructuring case, allocation events) validated white-box against the implementation on five builds; refinement/height theorems in progress",
-   text="After every insert/remove/find/lower_bound/walk/clear the status, removed element, size and (white-box) the whole tree (page ids, values, children), allocation events, height and (NDEBUG builds) comparator-call count are compared with the model, "
-        "on page sizes 64/128/256 (MAX_HEIGHT 24) and 4096 (default), key orders random/ascending/descending/zig-zag/drain-to-minimum. Theorems (sorted-set refinement for insert and remove, WF invariant, height bound, O(log n) comparisons, clear) are being added.",
-   note="Known finding: small pages with the default maximum height exceed it (listed in known_findings.json).", ref="§5 C01"),
+ "C01": dict(cat="proof", tech="Lean 4 theorems (sorted-set refinement of insert and remove by induction over the tree, lifted to every operation history under an arbitrary allocation oracle; WF invariant; height bound; comparison count; clear) and white-box correspondence on five builds",
+   text="Proved for every valid page geometry (INODE_VALS = LEAF_VALS/2 >= 3), every element and every allocation-failure oracle: insert_refines / insert_success_iff_absent, remove_refines, find_refines, clear_destroys_each_once, and for every history "
+        "btree_wf_invariant and btree_refines_sorted_set (statuses, contents = strictly ascending set, size = cardinality); btree_height_bound and btree_depth_le_maxHeight (height <= MAX_HEIGHT below a computed capacity; default build: >= 2^43 elements, from the regenerated geometry); "
+        "find_comparisons (<= height * (log2 leafMax + 1)). Tie: status, removed element, size and (white-box) the whole tree with page ids, allocation events, height and comparator-call count compared after every call on page sizes 64/128/256/4096, five key-order generators.",
+   note="Known finding (recorded): small pages with the default maximum height exceed it. Destroy/comparator user data and 'each element destroyed once' on the implementation are checked by the harness; element identity is the key (set semantics).", ref="§5 C01"),
  "C02": dict(cat="proof", tech="Lean 4 theorems (iterator paths: begin, increment, lower_bound with the ancestor fallback, equality; find in C01) by induction over the tree, plus correspondence with exhaustive probe sweeps",
    text="Proved for every well-formed tree of every valid geometry: lower_bound_spec (dereferences to the first element not less than the key under any compatible comparator — the first of the matching run for wildcards — or end; valid iterator), "
         "begin_spec, increment_walks_inorder (next element in order, end after the last, validity preserved), valid_iter_eq_iff_same_element and iter_equals_iff (equal exactly at the same position; all end iterators equal), lower_bound_comparisons (O(log n)). "
         "find_refines is in C01. Tie: lower_bound sweeps over every key in/between/below/above the stored keys with exact and wildcard comparators, iterator equality, full walks and every remove's next, compared as dereferenced element and index path per level.",
-   note="remove_next_is_successor (the `next` of remove) is being proved with the removal theorems; until then that clause rests on the correspondence. Comparator argument order and user data are checked by the harness on the implementation.", ref="§5 C02"),
+   note="remove_next_is_successor (the `next` of a successful remove is at the in-order successor, for leaf- and inode-resident victims) is proved in Properties/C01Remove. Comparator argument order and user data are checked by the harness on the implementation.", ref="§5 C02"),
  "C10": dict(cat="translation_validation", tech="Lean 4 executable model of the C scans (index ranges) and Lean transcription of the C++17 rules, both validated: model vs implementation, rules vs libstdc++, implementation vs libstdc++; theorems in progress",
    text="Every string over {/ . a} up to length 9 (12 thorough): the eight views as (offset,length), all queries and the component iterator frames equal the model's; the harness judges each answer against libstdc++ and checks slices; ASan with exact-size inputs observes that nothing outside the string is read.",
    note="POSIX build only; libstdc++ 12 stands in for the C++17 model; out-of-bounds reads are runtime-checked.", ref="§5 C10"),
